@@ -132,11 +132,31 @@ for _p in PROPERTIES.values():
     _p["assumptions"] = _p["assumptions"] + DEFAULT_ASSUMPTIONS
 
 # properties whose thorough tier has a Miri stage / which byte paths it reaches
-MIRI = set()
+# Miri: second execution engine + UB detector for the byte paths (bstr/memchr) and, for C20,
+# a result digest that must equal the native one
+MIRI = {"C04", "C06", "C20"}
 COVERAGE = set(PROPERTIES)
 
 
+# scale factors (percent) applied to the sizes of the SAMPLED families, tuned so that a quick
+# check takes roughly 10-25 s of wall clock on 16 cores and a thorough one a few minutes
+QUICK_SCALE = {"C01": 1000, "C02": 500, "C03": 2000, "C04": 150, "C05": 2500, "C06": 2500, "C07": 200, "C08": 100, "C09": 400,
+               "C10": 1500, "C11": 800, "C12": 4000, "C13": 4000, "C14": 200, "C15": 1500, "C16": 4000, "C17": 2500, "C18": 1000,
+               "C19": 1500, "C20": 100}
+THOROUGH_SCALE = {"C01": 400, "C02": 300, "C03": 500, "C04": 150, "C05": 800, "C06": 800, "C07": 150, "C08": 100, "C09": 300,
+                  "C10": 300, "C11": 300, "C12": 1500, "C13": 1500, "C14": 150, "C15": 300, "C16": 1500, "C17": 800, "C18": 400,
+                  "C19": 300, "C20": 100}
+
+
 def stages_for(prop, tier):
+    st = _stages_for(prop, tier)
+    for s in st:
+        if s.get("kind", "native") == "native" and "scale" not in s:
+            s["scale"] = (THOROUGH_SCALE if s.get("tier") == "thorough" else QUICK_SCALE).get(prop, 100)
+    return st
+
+
+def _stages_for(prop, tier):
     if tier == "quick":
         st = [{"name": "checked", "kind": "native", "profile": "checked", "tier": "quick", "budget_s": 240, "watchdog_s": 900}]
         if prop == "C20":
